@@ -85,6 +85,9 @@ def gen_case(rng):
     elif r < 0.45 and d is None:
         common += ["--clean"]
         clean = True
+    for comp in ("major", "minor", "patch", "epoch"):
+        if rng.random() < 0.08:
+            common += ["--%s" % comp, str(rng.choice([0, 1, 7, 2 ** 31]))]
     opts = dict(label=None, num=None, mode=None, post=None)
     fopts = []
     if rng.random() < 0.25:
@@ -154,6 +157,16 @@ def judge_case(pr, c, hashes, st):
             for k in ("epoch", "major", "minor", "patch", "pre_release", "post", "dev"):
                 g = v0.get(k)
                 g = tuple(g) if isinstance(g, list) else g
+                if k == "post" and "--post" in c["common"]:
+                    continue          # the baseline is run without --post (flow's own law applies it)
+                if "--" + k in c["common"]:
+                    want_o = int(c["common"][c["common"].index("--" + k) + 1])
+                    if k == "epoch" and want_o == 0:
+                        want_o = None
+                    if g != want_o:
+                        out.append(("component-override-not-applied", "--%s %r gives %s=%r" % (k, want_o, k, g)))
+                        return out
+                    continue
                 if g != tv[k]:
                     out.append(("start-version-differs-from-tag", "--tag-version gives %s=%r, the tag denotes %r" % (k, g, tv[k])))
                     return out
